@@ -281,6 +281,44 @@ impl Prop for C16 {
         let r1 = guarded(|| AdjacencyList::from(set_rows.clone()));
         let r2 = guarded(|| AdjacencyMap::from(set_rows.clone()));
         let r3 = guarded(|| AdjacencyListWeighted::<usize>::from(map_rows.clone()));
+        // the same rows through iterators whose size_hint is inexact (lower bound 0,
+        // upper bound too large or absent): the result must not depend on the hint
+        {
+            let filtered = || set_rows.clone().into_iter().filter(|_| true);
+            let mut k = 0;
+            let streamed = || {
+                let rows = set_rows.clone();
+                std::iter::from_fn(move || {
+                    k += 1;
+                    rows.get(k - 1).cloned()
+                })
+            };
+            let over = || set_rows.clone().into_iter().chain(vec![BTreeSet::new(); 3]).take_while({
+                let mut left = set_rows.len();
+                move |_| {
+                    let keep = left > 0;
+                    left = left.saturating_sub(1);
+                    keep
+                }
+            });
+            let variants: Vec<(&str, Result<AdjacencyList, String>, Result<AdjacencyMap, String>)> = vec![
+                ("filter", guarded(|| AdjacencyList::from(filtered())), guarded(|| AdjacencyMap::from(filtered()))),
+                ("from_fn", guarded(|| AdjacencyList::from(streamed())), guarded(|| AdjacencyMap::from(streamed()))),
+                ("take_while", guarded(|| AdjacencyList::from(over())), guarded(|| AdjacencyMap::from(over()))),
+            ];
+            for (how, l, mp) in variants {
+                match (&r1, l) {
+                    (Ok(a), Ok(b)) => ensure!(*a == b, "AdjacencyList::from(rows through {how}) differs from the same rows as a Vec"),
+                    (Err(_), Err(_)) => {}
+                    (a, b) => return Err(format!("AdjacencyList::from(rows through {how}): {} but from a Vec: {}", if b.is_ok() { "accepted" } else { "panicked" }, if a.is_ok() { "accepted" } else { "panicked" })),
+                }
+                match (&r2, mp) {
+                    (Ok(a), Ok(b)) => ensure!(*a == b, "AdjacencyMap::from(rows through {how}) differs from the same rows as a Vec"),
+                    (Err(_), Err(_)) => {}
+                    (a, b) => return Err(format!("AdjacencyMap::from(rows through {how}): {} but from a Vec: {}", if b.is_ok() { "accepted" } else { "panicked" }, if a.is_ok() { "accepted" } else { "panicked" })),
+                }
+            }
+        }
         if valid {
             let rm = rows_model();
             reprs::same(&r1.map_err(|p| format!("AdjacencyList::from(valid rows {:?}) panicked: {p}", c.rows))?, &rm, "AdjacencyList::from(rows)")?;
